@@ -9,6 +9,7 @@ in the Lean model.
 from __future__ import annotations
 
 import pickle
+import re
 import sys
 import types
 import typing
@@ -147,11 +148,13 @@ class _HiddenStateless(_Stateless):
 
 
 # ---- native flavour ------------------------------------------------------------------------------
+# %%
 class NativeFixed(_Fixed, flow.Actor):
     train = _Fixed.fit
     apply = _Fixed.predict
 
 
+# %%
 class NativeOpen(_Open, flow.Actor):
     def train(self, x, y):
         self.fit(x, y)
@@ -160,6 +163,7 @@ class NativeOpen(_Open, flow.Actor):
         return self.predict(x)
 
 
+# %%
 class NativeMand(_Mand, flow.Actor):
     def train(self, x, y):
         self.fit(x, y)
@@ -168,16 +172,19 @@ class NativeMand(_Mand, flow.Actor):
         return self.predict(x)
 
 
+# %%
 class NativeStateless(_Stateless, flow.Actor):
     def apply(self, x):
         return self.predict(x)
 
 
+# %%
 class NativeHidden(_Hidden, flow.Actor):
     train = _Hidden.fit
     apply = _Hidden.predict
 
 
+# %%
 class NativeCustom(_Fixed, flow.Actor):
     """user-written state methods, the naive way: nothing is preserved by the actor itself."""
 
@@ -193,16 +200,19 @@ class NativeCustom(_Fixed, flow.Actor):
 
 
 # ---- decorated flavour ---------------------------------------------------------------------------
+# %%
 @wrap.Actor.apply
 def DecoStatelessFixed(x, *, a=1, b=0):
     return applyfn0({'a': a, 'b': b}, x)
 
 
+# %%
 @wrap.Actor.apply
 def DecoStatelessOpen(x, **p):
     return applyfn0(p, x)
 
 
+# %%
 @wrap.Actor.train
 def DecoPairFixed(state, x, y, *, a=1, b=0):
     return trainfn({'a': a, 'b': b}, state, x, y)
@@ -213,6 +223,7 @@ def DecoPairFixed(state, x, *, a=1, b=0):
     return applyfn({'a': a, 'b': b}, state, x)
 
 
+# %%
 @wrap.Actor.train
 def DecoPairOpen(state, x, y, **p):
     return trainfn(p, state, x, y)
@@ -223,6 +234,7 @@ def DecoPairOpen(state, x, **p):
     return applyfn(p, state, x)
 
 
+# %%
 @wrap.Actor.train
 def DecoPairMand(state, x, y, *, a, b=0):
     return trainfn({'a': a, 'b': b}, state, x, y)
@@ -233,11 +245,25 @@ def DecoPairMand(state, x, *, a, b=0):
     return applyfn({'a': a, 'b': b}, state, x)
 
 
+# %%
+@wrap.Actor.train
+def DecoPairPos(state, x, y, a=1, b=0):
+    """documented signature `(state, features, labels, opt1, optN=None)`: positional-or-keyword options"""
+    return trainfn({'a': a, 'b': b}, state, x, y)
+
+
+@DecoPairPos.apply
+def DecoPairPos(state, x, a=1, b=0):
+    return applyfn({'a': a, 'b': b}, state, x)
+
+
 # ---- class-wrapped flavour -----------------------------------------------------------------------
+# %%
 class OriginFixed(_Fixed):
     pass
 
 
+# %%
 class OriginOpen:
     """different method names, every Actor method mapped through a callable."""
 
@@ -277,36 +303,50 @@ def _fit(o, x, y):
     return o.fit(x, y)
 
 
+# %%
 class OriginMand(_FixedMand):
     pass
 
 
+# %%
 class OriginStateless(_Stateless):
     pass
 
 
+# %%
 class OriginFlag(_Stateless):
     fit = True  # an attribute that is not a training implementation
 
 
+# %%
 class OriginHidden(_Hidden):
     pass
 
 
+# %%
 class OriginHiddenStateless(_HiddenStateless):
     pass
 
 
+# %%
 WrapNamesFixed = wrap.Actor.type(OriginFixed, apply='predict', train='fit')
+# %%
 WrapCallsOpen = wrap.Actor.type(OriginOpen, apply=_infer, train=_learn, get_params=_hp, set_params=_configure)
+# %%
 WrapTrainCall = wrap.Actor.type(OriginFixed, apply='predict', train=_fit)
+# %%
 WrapNamesMand = wrap.Actor.type(OriginMand, apply='predict', train='fit')
+# %%
 WrapNoTrain = wrap.Actor.type(OriginStateless, apply='predict')
+# %%
 WrapFlag = wrap.Actor.type(OriginFlag, apply='predict', train='fit')
+# %%
 WrapHidden = wrap.Actor.type(OriginHidden, apply='predict', train='fit')
+# %%
 WrapHiddenStateless = wrap.Actor.type(OriginHiddenStateless, apply='predict')
 
 
+# %%
 @wrap.Actor.type
 class WrapDefault(_Fixed):
     """parameterless decorator: the Actor method names are the origin's."""
@@ -342,6 +382,11 @@ class Toy(typing.NamedTuple):
     def hidden(self):
         return list(self.sig.get('hidden', []))
 
+    def ppos(self):
+        """hyper-parameters that can be given positionally to the constructor (a function-based actor's constructor is
+        keyword-only whatever the functions' signatures say)"""
+        return [] if self.kind == 'decorated' else list(self.sig['pos'])
+
     def allowed(self):
         """names the constructor accepts"""
         return [0, 1, 2, 3] if self.sig['varkw'] else sorted(self.sig['pos'] + self.sig['kw'])
@@ -371,6 +416,7 @@ TOYS = [
     Toy('DecoPairFixed', 'decorated', FIXED_KW, True, True, False, True),
     Toy('DecoPairOpen', 'decorated', OPEN, True, True, False, True),
     Toy('DecoPairMand', 'decorated', dict(pos=[], kw=[0, 1], varkw=False, mand=[0], defaults={}), True, True, False, True),
+    Toy('DecoPairPos', 'decorated', dict(pos=[0, 1], kw=[], varkw=False, mand=[], defaults={}), True, True, False, True),
     Toy('WrapNamesFixed', 'wrapped', FIXED, 'method', True, True, False),
     Toy('WrapCallsOpen', 'wrapped', OPEN, 'callable', True, False, False),
     Toy('WrapTrainCall', 'wrapped', FIXED, 'callable', True, True, False),
@@ -387,6 +433,40 @@ TOY = {t.name: t for t in TOYS}
 _MODULES: dict[str, types.ModuleType] = {}
 
 
+class DefinitionError(Exception):
+    """stands for the exception the code under test raised while an actor definition was created"""
+
+
+def broken_definition(name: str, exc: BaseException):
+    """stand-in for a definition that could not be created: every use raises what the definition raised (the failure is
+    recorded as the behaviour of every operation on it, never as a crash of the check)"""
+
+    def fail(*_a, **_k):
+        raise exc
+
+    return type(name, (), {'builder': staticmethod(fail), 'is_stateful': staticmethod(fail), '__init__': fail,
+                           '__c13_broken__': exc})
+
+
+_CHUNK_NAMES = re.compile(r'^(?:class|def)\s+(\w+)|^(\w+)\s*=', re.M)
+
+
+def exec_chunks(src: str, ns: dict, fname: str) -> None:
+    """Execute the source chunk by chunk (`# %%` markers). An exception raised while a chunk runs (forml code that runs
+    at definition time: decorators, metaclasses) is kept as the behaviour of the names the chunk defines."""
+    lineno = 0
+    for chunk in src.split('\n# %%\n'):
+        code = '\n' * lineno + chunk  # keeps the line numbers of the whole source
+        lineno += chunk.count('\n') + 2
+        try:
+            exec(compile(code, fname, 'exec'), ns)  # pylint: disable=exec-used
+        except Exception as e:  # pylint: disable=broad-except
+            for m in _CHUNK_NAMES.finditer(chunk):
+                name = m.group(1) or m.group(2)
+                if not name.startswith('_'):
+                    ns[name] = broken_definition(name, e)
+
+
 def toys_module(which: str) -> types.ModuleType:
     """'imp': registered in sys.modules (pickled by reference); 'dyn': unregistered (cloudpickle by value)."""
     if which not in _MODULES:
@@ -394,7 +474,7 @@ def toys_module(which: str) -> types.ModuleType:
         mod = types.ModuleType(name)
         if which == 'imp':
             sys.modules[name] = mod
-        exec(compile(TOYS_SRC, f'<{name}>', 'exec'), mod.__dict__)  # pylint: disable=exec-used
+        exec_chunks(TOYS_SRC, mod.__dict__, f'<{name}>')
         _MODULES[which] = mod
     return _MODULES[which]
 
@@ -440,15 +520,23 @@ def _shfit(o, x, y):
     return o.fit(x, y)
 
 
+# %%
 ShWrapA = wrap.Actor.type(ShOriginA, apply='predict', train='fit')
+# %%
 ShWrapB = wrap.Actor.type(ShOriginB, apply='predict', train='fit')
+# %%
 ShWrapB0 = wrap.Actor.type(ShOriginB, apply=lambda o, x: applyfn0(o.get_params(), x))
+# %%
 ShWrapBc = wrap.Actor.type(ShOriginB, apply='predict', train=_shfit)
+# %%
 ShDeco1 = wrap.Actor.apply(shfn)
+# %%
 ShDeco2 = wrap.Actor.apply(shfn)
+# %%
 _shtrain = wrap.Actor.train(shtrain)
 ShPair1 = _shtrain.apply(shapply)
 ShPair2 = _shtrain.apply(shapply)
+# %%
 ShPair3 = wrap.Actor.train(shtrain).apply(shapply)
 """
 
@@ -487,7 +575,7 @@ def chain_resolved(table: list, i: int, field: int) -> bool:
 def chain_source(table: list) -> str:
     out = [CHAIN_ROOT_SRC]
     for i, (base, own_train, own_state) in enumerate(table):
-        out.append(f'\n\nclass Chain{i}({"ChainRoot" if base is None else f"Chain{base}"}):')
+        out.append(f'\n# %%\nclass Chain{i}({"ChainRoot" if base is None else f"Chain{base}"}):')
         out.append(f'    _trains = {chain_resolved(table, i, 1)}')
         if own_train:
             out.append('\n    def train(self, x, y):\n        _Fixed.fit(self, x, y)')
@@ -497,18 +585,119 @@ def chain_source(table: list) -> str:
     return '\n'.join(out) + '\n'
 
 
+# ---- generated wrap.Actor.type definitions (origin class x mapping) ----------------------------------------------------
+WD_NAMES = {0: 'apply', 1: 'train', 2: 'get_params', 3: 'set_params', 4: 'predict', 5: 'fit', 6: 'hp', 7: 'configure',
+            8: 'get_state', 9: 'set_state', 15: 'nope', 16: 'flag', 17: 'switch'}
+
+WD_PRELUDE = r"""
+def _wd_hp(o):
+    return {'a': o.a, 'b': o.b}
+
+
+def _wd_predict(o, x):
+    if not o._trains:
+        return applyfn0(_wd_hp(o), x)
+    if o.s is None:
+        raise RuntimeError('Actor not trained')
+    return applyfn(_wd_hp(o), o.s, x)
+
+
+def _wd_fit(o, x, y):
+    o.s = trainfn(_wd_hp(o), o.s, x, y)
+
+
+def _wd_configure(o, **kw):
+    if set(kw) - {'a', 'b'}:
+        raise TypeError(f'unknown hyper-parameter {sorted(kw)}')
+    for k, v in kw.items():
+        setattr(o, k, v)
+
+
+def _wd_decoy_predict(o, x):
+    return 999
+
+
+def _wd_decoy_fit(o, x, y):
+    o.s = -1000
+
+
+def _wd_decoy_hp(o):
+    return {'a': 77, 'b': 77}
+
+
+def _wd_decoy_configure(o, **kw):
+    o.a = o.b = -77
+
+
+def _wd_get_state(o):
+    return cloudpickle.dumps(o.__dict__)
+
+
+def _wd_set_state(o, state):
+    if state:
+        o.__dict__.update(cloudpickle.loads(state))
+"""
+
+WD_IMPL = {0: '_wd_predict', 4: '_wd_predict', 1: '_wd_fit', 5: '_wd_fit', 2: '_wd_hp', 6: '_wd_hp', 3: '_wd_configure',
+           7: '_wd_configure', 8: '_wd_get_state', 9: '_wd_set_state'}
+
+
+def wrapdef_resolve(spec: dict) -> tuple:
+    """spec side, from the wrap.Actor.type documentation: (accepted?, train-map kind, origin's own state methods?).
+    Refused: the origin already is an actor; a mapping value that is neither a name nor a callable; a method other than
+    `train` (given or defaulted to its own name) whose target name is not a callable attribute of the origin."""
+    methods, flags = set(spec['methods']), set(spec['flags'])
+    mapping = {k: t for k, t in spec['mapping']}
+    if spec['actor'] or any(t == 'invalid' for t in mapping.values()):
+        return False, 'absent', False
+    full = {**{k: ['name', k] for k in (0, 1, 2, 3)}, **mapping}
+    for k, t in full.items():
+        if k != 1 and t != 'fn' and t[1] not in methods:
+            return False, 'absent', False
+    t = full[1]
+    tm = 'callable' if t == 'fn' else 'method' if t[1] in methods else 'noncallable' if t[1] in flags else 'absent'
+    return True, tm, {8, 9} <= methods and 8 not in mapping and 9 not in mapping
+
+
+def wrapdef_source(spec: dict) -> str:
+    ok, tm, _own = wrapdef_resolve(spec)
+    trains = ok and tm in ('callable', 'method')
+    out = [WD_PRELUDE, '\n# %%', f'class WdOrigin({"flow.Actor" if spec["actor"] else "object"}):', f'    _trains = {trains}', '',
+           '    def __init__(self, a=1, b=0):', '        self.a = a', '        self.b = b', '        self.s = None', '']
+    # a method of the origin that the (completed) mapping does not point to is a DECOY: the redirection must not use it
+    mapping = {k: t for k, t in spec['mapping']}
+    used = {8, 9}
+    for k in (0, 1, 2, 3):
+        t = mapping.get(k, ['name', k])
+        if isinstance(t, list):
+            used.add(t[1])
+    for m in spec['methods']:
+        impl = WD_IMPL[m] if m in used or not ok else WD_IMPL[m].replace('_wd_', '_wd_decoy_')
+        out.append(f'    {WD_NAMES[m]} = {impl}')
+    for f in spec['flags']:
+        out.append(f'    {WD_NAMES[f]} = True')
+    kw = []
+    for k, t in spec['mapping']:
+        val = '3' if t == 'invalid' else WD_IMPL[k] if t == 'fn' else repr(WD_NAMES[t[1]])
+        kw.append(f'{WD_NAMES[k]}={val}')
+    out += ['', '# %%', f'WdActor = wrap.Actor.type(WdOrigin, {", ".join(kw)})' if kw else 'WdActor = wrap.Actor.type(WdOrigin)']
+    return '\n'.join(out) + '\n'
+
+
 class Family:
     """Related actor classes defined together, freshly for every scenario (class-level state must not leak)."""
 
     def __init__(self, spec: dict):
         self.spec = spec
         ns = _family_namespace()
+        inherited = dict(ns)  # the shared toy helpers: not this family's
         sg = None
         self.members: list[Toy] = []
         self.prefixes: list[list] = []
+        self.accepted = True  # wrapdef: the documentation says the definition is a valid one
         if spec['kind'] == 'chain':
             table = [tuple(r) for r in spec['table']]
-            exec(compile(chain_source(table), f'<{ns["__name__"]}>', 'exec'), ns)  # pylint: disable=exec-used
+            exec_chunks(chain_source(table), ns, f'<{ns["__name__"]}>')
             tbl = [['none' if b is None else b, bool(t), bool(st)] for b, t, st in table]
             for i in range(len(table)):
                 trains = chain_resolved(table, i, 1)
@@ -517,14 +706,36 @@ class Family:
                 sg = toy.flavour()[1]
                 self.members.append(toy)
                 self.prefixes.append(['runclass', sg, tbl, i])
+        elif spec['kind'] == 'wrapdef':
+            exec_chunks(wrapdef_source(spec), ns, f'<{ns["__name__"]}>')
+            ok, tm, own = wrapdef_resolve(spec)
+            trains = ok and tm in ('callable', 'method')
+            toy = Toy('WdActor', 'custom' if own else 'wrapped', FIXED, tm, trains, True, False)
+            self.accepted = ok
+            self.members.append(toy)
+            self.prefixes.append(['runwrap', toy.flavour()[1], [list(spec['methods']), list(spec['flags']), bool(spec['actor'])],
+                                  [[k, t] for k, t in spec['mapping']]])
         else:
-            exec(compile(SHARED_SRC, f'<{ns["__name__"]}>', 'exec'), ns)  # pylint: disable=exec-used
+            exec_chunks(SHARED_SRC, ns, f'<{ns["__name__"]}>')
             for name in spec['names']:
                 kind, sig, flag, trains, store_all = SHARED[name]
                 toy = Toy(name, kind, sig, flag, trains, store_all, False)
                 self.members.append(toy)
                 self.prefixes.append(['run', toy.flavour()])
         self.classes = [ns[t.name] for t in self.members]
+        self._ns = ns
+        self._own = [v for k, v in ns.items() if isinstance(v, type) and inherited.get(k) is not v]
+
+    def dispose(self) -> None:
+        """wrap.Actor.type registers every class it creates in the process-global copyreg.dispatch_table, which keeps the
+        class alive for ever; every further class creation then walks all of them (abc subclass check of
+        `issubclass(origin, flow.Actor)`): drop the entries of THIS family's classes so that they can be collected."""
+        import copyreg
+
+        for v in self._own:
+            copyreg.dispatch_table.pop(v, None)
+        self._own = []
+        self._ns.clear()
 
 
 def run_family(fam: Family, scripts: list, order: list) -> list:
@@ -629,8 +840,10 @@ class RealMachine:
                 self.builder = getattr(self.builder, o)(*op[1], **pyk(op[2]))
                 return ('ok',)
             if o == 'bpickle':
-                self.builder = P.loads(P.dumps(self.builder))
-                return ('ok',)
+                old, self.builder = self.builder, P.loads(P.dumps(self.builder))
+                # flow.Spec is a value: the copy is equal to the original (actor class, args, kwargs)
+                same = self.builder == old and tuple(self.builder.args) == tuple(old.args) and dict(self.builder.kwargs) == dict(old.kwargs)
+                return ('ok',) if same else ('ok', 'differs')
             if o == 'build':
                 regs[op[1]] = self.builder(*op[2], **pyk(op[3]))
                 return ('ok',)
@@ -698,6 +911,7 @@ class Scenario:
         self.toy, self.module, self.pickler = toy, module, pickler
         self.ops: list = []
         self.checks: list = []  # (kind, args..., what, signature)
+        self.live = False  # checks derived by the contract machine from the ops (can be re-derived for a sub-sequence)
 
     def op(self, *o) -> int:
         self.ops.append(list(o))
@@ -720,7 +934,7 @@ class Scenario:
 
     def witness(self, check=None) -> dict:
         return {'toy': self.toy.name, 'module': self.module, 'pickler': self.pickler,
-                'ops': [op_sexp(o) for o in self.ops], 'check': check}
+                'ops': [op_sexp(o) for o in self.ops], 'check': check, **({'live': True} if self.live else {})}
 
 
 def eval_check(chk: list, obs: list) -> typing.Optional[str]:
@@ -761,13 +975,245 @@ def eval_check(chk: list, obs: list) -> typing.Optional[str]:
     raise fw.MachineryError(f'unknown check {chk}')
 
 
+def expected_attrs(toy: Toy, args: list, kw: dict) -> dict:
+    """what the constructor of the toy definition stores (every attribute, reported or not)"""
+    if not toy.store_all:
+        return dict(kw)
+    out = dict(toy.sig['defaults'])
+    out.update(zip(toy.sig['pos'], args))
+    out.update(kw)
+    return out
+
+
+# ---- the contract as a state machine (oracle for operation sequences on live instances) --------------------------------
+class SpecActor:
+    """The simplest actor: current attributes (hyper-parameters + constructor arguments it keeps to itself), current logical
+    state (None = untrained); `prov` = the last operation that changed it (for the root-cause key only)."""
+
+    __slots__ = ('attrs', 'state', 'prov')
+
+    def __init__(self, attrs: dict, state=None, prov: str = 'build'):
+        self.attrs, self.state, self.prov = dict(attrs), state, prov
+
+
+UNKNOWN = 'unknown'  # the contract does not say what the object is now: nothing that depends on it is checked
+
+
+class SpecMachine:
+    """Runs an op script on the contract alone - no forml code, no Lean model: an actor is a pair (attributes, logical
+    state); `train` folds the state, `apply` reads both; `get_state` exports exactly the current logical state (for
+    class-based actors together with the attribute dict); `set_state` of an export replaces the logical state, the
+    hyper-parameters the receiver reports win, attributes it does not report come with a class-based export; an empty state
+    changes nothing; pickling changes nothing; a builder is its (args, kwargs) with update = replace-if-given / merge.
+    Yields the checks (expected observation per op). Where the contract is silent (malformed hyper-parameters, a state of
+    an untrained actor given to a trained one, foreign bytes given to an actor with training ...) the touched object becomes
+    UNKNOWN and nothing that depends on it is demanded."""
+
+    def __init__(self, toy: Toy):
+        self.toy = toy
+        self.trains = toy.trains
+        self.carries = toy.kind != 'decorated'
+        self.protects = toy.own_state
+        self.builder: typing.Any = None  # None | (args, kw) | UNKNOWN
+        self.regs: list = [None] * 4
+        self.blobs: list = [('empty',)] * 4
+        self.checks: list = []
+        self.i = -1
+
+    # -- helpers
+    def _binds(self, args: list, kw: dict, full: bool) -> bool:
+        toy = self.toy
+        pos = toy.sig['pos']
+        if len(args) > len(pos) or (toy.kind == 'decorated' and args):
+            return False
+        if any(k not in toy.allowed() for k in kw) or any(k in pos[:len(args)] for k in kw):
+            return False
+        return not full or all(k in set(pos[:len(args)]) | set(kw) for k in toy.sig['mand'])
+
+    def _val(self, expected, what, sig):
+        self.checks.append(['val', self.i, expected, what, sig])
+
+    def _err(self, what, sig):
+        self.checks.append(['iserr', self.i, what, sig])
+
+    def _fresh(self, args=(), kw=None):
+        """builder(*args, **kw) on the contract; None if the contract does not say (unknown / not constructible)"""
+        if self.builder in (None, UNKNOWN):
+            return None
+        bargs, bkw = self.builder
+        eargs, ekw = list(args) or list(bargs), {**bkw, **(kw or {})}
+        if not self._binds(eargs, ekw, True):
+            return None
+        return SpecActor(expected_attrs(self.toy, eargs, ekw))
+
+    def _receive(self, a: SpecActor, blob: tuple, protects: bool, how: str):
+        """set_state / preset of a blob on the contract; returns the new actor or UNKNOWN"""
+        if blob[0] == 'empty':
+            return a
+        if blob[0] != 'own' or not self.trains:
+            return UNKNOWN if self.trains else a  # an actor without training keeps what it has, whatever it answers
+        _, p, s, _prov = blob
+        if self.carries:
+            attrs = {**p, **self.toy.vis(a.attrs)} if protects else dict(p)
+        else:
+            attrs = dict(a.attrs)
+        if s is None and (a.state is not None or attrs != a.attrs):
+            return UNKNOWN  # the export of an untrained actor given to somebody else: outside the contract
+        return SpecActor(attrs, s if s is not None else a.state, how)
+
+    def _apply(self, a: SpecActor, x: int):
+        """('val', v) | ('err',)"""
+        if not self.trains:
+            return ('val', spec_apply0(a.attrs, x))
+        if a.state is None:
+            return ('err',)
+        return ('val', spec_apply(a.attrs, a.state, x))
+
+    # -- one op
+    def step(self, op: list) -> None:  # pylint: disable=too-many-branches,too-many-statements,too-many-return-statements
+        self.i += 1
+        toy, o = self.toy, op[0]
+        if o == 'stateful':
+            self._val(toy.trains, 'is_stateful() does not say whether the definition has a training implementation',
+                      'stateful-mismatch')
+            return
+        if o == 'forge':
+            self.blobs[op[1]] = ('foreign',)
+            return
+        if o == 'spec':
+            if self._binds(op[1], op[2], False):
+                self._val(None, 'builder creation with valid hyper-parameters failed', 'builder-create')
+                self.builder = (list(op[1]), dict(op[2]))
+            else:
+                self.builder = UNKNOWN
+            return
+        if o in ('update', 'reset', 'bpickle', 'build', 'fapply', 'ftrain') and self.builder in (None, UNKNOWN):
+            if o == 'build' and self.builder is UNKNOWN:
+                self.regs[op[1]] = UNKNOWN
+            if o == 'ftrain':
+                self.blobs[op[4]] = ('unknown',)
+            return
+        if o in ('update', 'reset'):
+            bargs, bkw = self.builder
+            nargs, nkw = (list(op[1]) or bargs, {**bkw, **op[2]}) if o == 'update' else (list(op[1]), dict(op[2]))
+            if self._binds(nargs, nkw, False):
+                self._val(None, f'Builder.{o} with valid hyper-parameters failed', 'builder-update')
+                self.builder = (nargs, nkw)
+            else:
+                self.builder = UNKNOWN
+            return
+        if o == 'bpickle':
+            self._val(None, 'builder does not survive pickling', 'pickle-builder-fails')
+            return
+        if o == 'build':
+            a = self._fresh(op[2], op[3])
+            if a is None:
+                self.regs[op[1]] = UNKNOWN  # (if it raised the register keeps the old object: not known here)
+            else:
+                self._val(None, 'builder(*args, **kwargs) with valid hyper-parameters failed', 'build-fails')
+                self.regs[op[1]] = a
+            return
+        if o == 'fapply':
+            a, blob = self._fresh(), self.blobs[op[1]]
+            r = UNKNOWN if a is None else self._receive(a, blob, True, 'preset')
+            if r is UNKNOWN or blob[0] == 'foreign':
+                return
+            exp = self._apply(r, op[2])
+            prov = blob[3] if blob[0] == 'own' else 'empty'
+            if exp[0] == 'err':
+                self._err('a fresh actor given an empty state through the platform (Functor with state preset) applies '
+                          'although it is untrained', f'live-export-after-{prov}')
+            else:
+                self._val(exp[1], 'the state exported by a live actor does not reproduce that actor: a fresh actor from the builder '
+                          'given it through the platform (Functor with state preset) answers differently from the contract '
+                          '(builder\'s hyper-parameters, the exporting actor\'s logical state at the time of the export)',
+                          f'live-export-after-{prov}')
+            return
+        if o == 'ftrain':
+            a, blob = self._fresh(), self.blobs[op[1]]
+            r = UNKNOWN if a is None else self._receive(a, blob, True, 'preset')
+            if r is UNKNOWN or blob[0] == 'foreign':
+                self.blobs[op[4]] = ('unknown',)
+                return
+            if not self.trains:
+                self._err('an actor without a training implementation trains through the platform', 'stateless-trains')
+                return
+            r.state = spec_train(r.attrs, r.state, op[2], op[3])
+            self._val('full', 'train functor returned an empty state', 'trained-state-empty')
+            self.blobs[op[4]] = ('own', dict(r.attrs), r.state, 'ftrain')
+            return
+        a = self.regs[op[1]]
+        if a is None:
+            return  # nothing is demanded of an empty register
+        if a is UNKNOWN:
+            if o == 'getstate':
+                self.blobs[op[2]] = ('unknown',)
+            return
+        if o == 'train':
+            if not self.trains:
+                self._err('actor without a training implementation trains', 'stateless-trains')
+                return
+            self._val(None, 'train failed', 'train-fails')
+            a.state = spec_train(a.attrs, a.state, op[2], op[3])
+            a.prov = 'train'
+        elif o == 'apply':
+            exp = self._apply(a, op[2])
+            if exp[0] == 'err':
+                self._err('untrained actor applies', f'live-untrained-applies-after-{a.prov}')
+            else:
+                self._val(exp[1], 'live actor answers differently from the contract (its current hyper-parameters, its current '
+                          'logical state)', f'live-apply-after-{a.prov}')
+        elif o == 'params':
+            self._val(toy.vis(a.attrs), 'live actor reports other hyper-parameters than the contract says',
+                      f'live-params-after-{a.prov}')
+        elif o == 'setparams':
+            if all(k in toy.settable() for k in op[2]):
+                self._val(None, 'set_params with valid hyper-parameters failed', 'set-params')
+                a.attrs.update(op[2])
+                a.prov = 'setparams'
+            else:
+                self.regs[op[1]] = UNKNOWN
+        elif o == 'getstate':
+            if not self.trains:
+                self._val('empty', 'actor without training exports a non-empty state', 'stateless-state')
+                self.blobs[op[2]] = ('empty',)
+            elif a.state is None:
+                # an untrained actor may export b\'\' or its attribute dict: the contract does not say which
+                self.blobs[op[2]] = ('own', dict(a.attrs), None, a.prov) if self.carries else ('unknown',)
+            else:
+                self._val('full', 'trained actor exports an empty state', 'trained-state-empty')
+                self.blobs[op[2]] = ('own', dict(a.attrs), a.state, a.prov)
+        elif o in ('setstate', 'preset'):
+            blob = self.blobs[op[2]]
+            r = UNKNOWN if blob[0] == 'unknown' else self._receive(a, blob, self.protects or o == 'preset', o)
+            if r is not UNKNOWN and blob[0] != 'foreign':
+                self._val(None, f'{o} of a state exported by an actor of the same definition failed', 'transfer-fails')
+            self.regs[op[1]] = r
+        elif o == 'setempty':
+            self._val(None, 'set_state(b\'\') failed', 'empty-state')
+        elif o == 'pickle':
+            self._val(None, 'live actor does not survive pickling', 'pickle-actor-fails')
+            a.prov = 'pickle'
+        else:
+            raise fw.MachineryError(f'unknown op {op}')
+
+    def run(self, ops: list) -> list:
+        for op in ops:
+            self.step(op)
+        return self.checks
+
+
+def live_checks(toy: Toy, ops: list) -> list:
+    return SpecMachine(toy).run(ops)
+
+
 class C13(fw.Check):
     ID = 'C13'
-    LEAN_MODULES = ['ForML.Props.C13']
+    LEAN_MODULES = ['ForML.Props.C13', 'ForML.Props.C13Live']
     DRIVER = 'drv_c13'
-    RULE = ('scenario = actor definition (21 toy definitions: native class fixed/open/mandatory/stateless/with a constructor '
+    RULE = ('scenario = actor definition (22 toy definitions: native class fixed/open/mandatory/stateless/with a constructor '
             'argument that is not a hyper-parameter/with user-written naive get_state+set_state, @wrap.Actor.apply fixed/open, '
-            '.train/.apply pair fixed/open/mandatory, wrap.Actor.type with method names, callables for all four methods '
+            '.train/.apply pair fixed/open/mandatory/with positional-or-keyword options (documented signature), wrap.Actor.type with method names, callables for all four methods '
             '(nested delegate), callable train only, mandatory ctor arg, no train, non-callable train attribute, parameterless '
             'decorator, non-hyper-parameter ctor arg with and without train) x definition site (importable module / '
             'unregistered module = cloudpickle by value) x pickler (cloudpickle; stdlib pickle for importable native/decorated) '
@@ -789,14 +1235,34 @@ class C13(fw.Check):
             '(for half of them a leading is_stateful() round over all classes in a random permutation), so that the first '
             'query of related classes happens in either order; each member\'s projection is compared with the model '
             '(the flavour of a chain class is resolved by the model from the class table) and checked by the same oracle. '
+            'LIVE OPERATION SEQUENCES (round 4): 12-55 ops on 3 actor registers and 3 state slots of one definition, generated '
+            'along the contract machine (harness SpecMachine: actor = (attributes, logical state)) so that almost every op is '
+            'one the contract speaks about: train (some labels chosen so that the state becomes 0), apply, get_params, '
+            'set_params, get_state into any slot (mostly from a trained instance) followed by a behavioural probe of the '
+            'exported bytes (Functor with state preset on a fresh actor, or build + set_state/preset + apply), set_state / '
+            'SetState preset of any slot (own earlier export, another instance\'s export, never-written = empty), '
+            'set_state(b\'\'), pickle round trip of the instance, Builder.update followed by set_params on the live '
+            'instances, builder pickling, builder() into any register, Functor apply/train, foreign bytes (actors without '
+            'training); closing round: every live instance answers, reports, exports, every export is probed. Every '
+            'observation is predicted by the contract machine (oracle) and compared with the Lean world machine stepW (model). '
+            'GENERATED wrap.Actor.type DEFINITIONS (round 4): origin class = which of apply/predict, train/fit, '
+            'get_params/hp, set_params/configure, get_state+set_state it defines as methods (methods the completed mapping '
+            'does not point to are decoys with visibly different behaviour), non-callable attributes, rarely already a '
+            'flow.Actor; mapping per Actor method = not given / name of a method / name of a non-callable attribute / '
+            'missing name / callable / rarely an invalid value, in random order; acceptance, train resolution and '
+            'ownership of the state methods are resolved by the model (classNew, getattribute, wrapDef) and independently by '
+            'the harness from the documentation; accepted definitions get structured / live / random scripts. '
             'distinct = (toy, ops) resp. (family, order, scripts); non-trivial = at least one training step and one state '
-            'transfer, or (stateless) one parameter change; family: at least two related classes.')
+            'transfer, or (stateless) one parameter change; family: at least two related classes or a generated definition.')
     TRUSTED = [
         'cloudpickle / pickle fidelity for plain attribute dicts (modelled as identity), inspect.signature binding rules '
         '(modelled by bind/bindPartial for the signature shapes used), functools.update_wrapper metadata, '
         'functools.partial pickling',
         'toy actors: the integer functions in harness/props/c13.py TOYS_SRC and toyApply/toyApply0/toyTrain in the model '
         'are the same by inspection (and by the correspondence itself)',
+        'the contract is written three times independently: specMach (Lean, what C13_live_refines refines to), SpecMachine '
+        '(Python oracle) and the property text; the Python oracle and the Lean contract agree on every sequence on which the '
+        'check passes (real = Lean model by the correspondence, Lean model = Lean contract by the theorem)',
     ]
     ASSUMPTIONS = [
         'user train functions never return None (a None state of a decorated pair means "untrained" again)',
@@ -808,6 +1274,14 @@ class C13(fw.Check):
         'the builder)',
         'an actor with user-written state methods that preserve nothing is protected by the platform path '
         '(SetState.set) only; precedence on a direct set_state call is demanded only of forml\'s own state methods',
+        'live sequences: where the contract is silent the oracle demands nothing (the touched object becomes UNKNOWN): '
+        'hyper-parameter names the definition does not accept, constructor calls that do not bind, the export of an '
+        'UNTRAINED actor given to a trained or differently configured one (b\'\' and an attribute dict are both '
+        'legitimate exports of an untrained actor), foreign bytes given to an actor with training, whether a refused '
+        'wrap.Actor.type definition is refused (compared with the model only)',
+        'generated wrap.Actor.type definitions: an origin with its own get_state/set_state is generated only together with a '
+        'training implementation (without one such an actor is not stateful yet exports a non-empty state: outside the '
+        'property); mapping keys are the four Actor methods',
         'wrapped flavour is modelled with the repairs of Class.__new__ (empty mapping, c5871cf), Class.Actor.is_stateful '
         '(callable check, 146ab51) and of the copyreg reducer (constructor arguments, e52a412) '
         'applied',
@@ -822,14 +1296,10 @@ class C13(fw.Check):
         return {k: self.rng.randint(-3, 5) for k in sorted(keys)}
 
     def _expected_params(self, toy: Toy, args: list, kw: dict) -> dict:
-        if not toy.store_all:
-            return dict(kw)
-        out = dict(toy.sig['defaults'])
-        out.update(zip(toy.sig['pos'], args))
-        out.update(kw)
-        return out
+        return expected_attrs(toy, args, kw)
 
     _forced_site = None
+    _live_reported: set = set()
 
     def _pick_site(self, toy: Toy):
         if self._forced_site:
@@ -845,10 +1315,10 @@ class C13(fw.Check):
         mand = toy.sig['mand']
         args: list = []
         kw = self._kw(toy, need=mand if rng.random() < 0.7 else ())
-        if toy.sig['pos'] and rng.random() < 0.3:
-            npos = rng.randint(1, len(toy.sig['pos']))
+        if toy.ppos() and rng.random() < 0.3:
+            npos = rng.randint(1, len(toy.ppos()))
             args = [rng.randint(-3, 5) for _ in range(npos)]
-            for k in toy.sig['pos'][:npos]:
+            for k in toy.ppos()[:npos]:
                 kw.pop(k, None)
         i = sc.op('spec', args, kw)
         sc.val(i, None, 'builder creation with valid hyper-parameters failed', 'builder-create')
@@ -856,23 +1326,23 @@ class C13(fw.Check):
             how = rng.choice(['update', 'update', 'reset'])
             nargs: list = []
             nkw = self._kw(toy, hi=3)
-            if toy.sig['pos'] and rng.random() < 0.25:
-                npos = rng.randint(1, len(toy.sig['pos']))
+            if toy.ppos() and rng.random() < 0.25:
+                npos = rng.randint(1, len(toy.ppos()))
                 nargs = [rng.randint(-3, 5) for _ in range(npos)]
             eff_args = (nargs or args) if how == 'update' else nargs
             merged = {**kw, **nkw} if how == 'update' else dict(nkw)
-            for k in toy.sig['pos'][:len(eff_args)]:
+            for k in toy.ppos()[:len(eff_args)]:
                 # a positional and a keyword for the same name is a TypeError by Python's rules: avoid it here
                 merged.pop(k, None)
                 nkw.pop(k, None)
-            if how == 'update' and any(k in kw for k in toy.sig['pos'][:len(eff_args)]):
+            if how == 'update' and any(k in kw for k in toy.ppos()[:len(eff_args)]):
                 # update cannot drop an inherited keyword: switch to reset with the merged dict
                 how, nkw = 'reset', dict(merged)
                 nargs = list(eff_args)
             i = sc.op(how, nargs, nkw)
             sc.val(i, None, f'Builder.{how} with valid hyper-parameters failed', 'builder-update')
             args, kw = list(eff_args), merged
-        bound = set(toy.sig['pos'][:len(args)]) | set(kw)
+        bound = set(toy.ppos()[:len(args)]) | set(kw)
         missing = [k for k in mand if k not in bound]
         if missing:
             add = {k: rng.randint(-3, 5) for k in missing}
@@ -888,12 +1358,12 @@ class C13(fw.Check):
         """builder(*args2, **kw2): positionals replace the stored ones if given, keywords update them (as Builder.update)."""
         rng = self.rng
         args2: list = []
-        if toy.sig['pos'] and rng.random() < 0.6:
-            npos = rng.randint(1, len(toy.sig['pos']))
-            if not any(k in kw for k in toy.sig['pos'][:npos]):
+        if toy.ppos() and rng.random() < 0.6:
+            npos = rng.randint(1, len(toy.ppos()))
+            if not any(k in kw for k in toy.ppos()[:npos]):
                 args2 = [rng.randint(-3, 5) for _ in range(npos)]
         eff = args2 or args
-        kw2 = self._kw(toy, lo=0, hi=2, avoid=toy.sig['pos'][:len(eff)])
+        kw2 = self._kw(toy, lo=0, hi=2, avoid=toy.ppos()[:len(eff)])
         if not args2 and not kw2:
             return
         sc.val(sc.op('build', 3, args2, kw2), None, 'builder(*args, **kwargs) with valid overrides failed', 'build-fails')
@@ -1169,6 +1639,179 @@ class C13(fw.Check):
                 sc.op(o, k, rng.randint(-4, 6), rng.randint(-4, 6), rng.randint(0, 2))
         return sc
 
+    def _live_scenario(self, toy: Toy, length: typing.Optional[int] = None) -> Scenario:
+        """An arbitrary operation sequence on LIVE instances (not straight-line): any interleaving of train / apply /
+        get_state / set_state (own earlier state, another twin's state, the empty state) / SetState preset / get_params /
+        set_params / Builder.update / pickle round trips / Functor executions over 3 actor registers and 3 state slots,
+        generated along the contract machine so that (almost) every op is one the contract speaks about. After most
+        exports the behavioural content of the exported bytes is probed (fresh actor from the builder + that state).
+        The checks are the contract machine's predictions for every op."""
+        rng = self.rng
+        module, pickler = self._pick_site(toy)
+        sc = Scenario(toy, module, pickler)
+        sc.live = True
+        sm = SpecMachine(toy)
+
+        def emit(*o):
+            sc.op(*o)
+            sm.step(list(o))
+
+        mand = toy.sig['mand']
+        args: list = []
+        kw = self._kw(toy, need=mand)
+        if toy.sig['pos'] and toy.store_all and toy.kind != 'decorated' and rng.random() < 0.25:
+            args = [rng.randint(-3, 5) for _ in range(rng.randint(1, len(toy.sig['pos'])))]
+            for k in toy.sig['pos'][:len(args)]:
+                kw.pop(k, None)
+        emit('spec', args, kw)
+        posbound = toy.sig['pos'][:len(args)]
+        emit('build', 0, [], {})
+        if rng.random() < 0.8:
+            emit('build', 1, [], {})
+        xs = [rng.randint(-5, 7) for _ in range(3)]
+
+        def live():
+            return [r for r in range(3) if isinstance(sm.regs[r], SpecActor)]
+
+        def trained():
+            return [r for r in live() if sm.regs[r].state is not None]
+
+        def full():
+            return [k for k in range(3) if sm.blobs[k][0] == 'own' and sm.blobs[k][2] is not None]
+
+        def train(r):
+            a = sm.regs[r]
+            x, y = rng.randint(-4, 6), rng.randint(-4, 6)
+            if rng.random() < 0.07:
+                y -= spec_train(a.attrs, a.state, x, y)  # the new state is the integer 0: falsy but genuine
+            emit('train', r, x, y)
+
+        def probe(k):
+            u = rng.random()
+            if u < 0.55:
+                emit('fapply', k, rng.choice(xs))
+            elif u < 0.8:
+                r = rng.choice([2, rng.randint(0, 2)])
+                emit('build', r, [], {})
+                emit(rng.choice(['setstate', 'preset']) if toy.own_state else 'preset', r, k)
+                emit('apply', r, rng.choice(xs))
+
+        n = length or rng.randint(12, 55)
+        menu = [('train', 6), ('apply', 4), ('params', 1.2), ('setparams', 1.5), ('getstate', 5), ('setstate', 4), ('preset', 2),
+                ('setempty', 0.6), ('pickle', 1.5), ('update', 1), ('bpickle', 0.3), ('build', 1), ('fapply', 1), ('ftrain', 1),
+                ('stateful', 0.3), ('forge', 0.0 if toy.trains else 0.6)]
+        names, weights = [m[0] for m in menu], [m[1] for m in menu]
+        while len(sc.ops) < n:
+            o = rng.choices(names, weights)[0]
+            regs = live()
+            if o in ('update', 'bpickle', 'build', 'fapply', 'ftrain', 'stateful', 'forge'):
+                if o == 'update':
+                    q = self._kw(toy, lo=1, hi=2, avoid=posbound + toy.hidden())
+                    emit('update', [], q)
+                    if regs and rng.random() < 0.6:  # the live actors follow (tuner): set_params per Builder.update
+                        for r in (regs if rng.random() < 0.5 else [rng.choice(regs)]):
+                            emit('setparams', r, q)
+                elif o == 'build':
+                    emit('build', rng.randint(0, 2), [], self._kw(toy, lo=0, hi=1, avoid=posbound) if rng.random() < 0.2 else {})
+                elif o == 'fapply':
+                    emit('fapply', rng.randint(0, 2), rng.choice(xs))
+                elif o == 'ftrain':
+                    if toy.trains:
+                        emit('ftrain', rng.randint(0, 2), rng.randint(-4, 6), rng.randint(-4, 6), rng.randint(0, 2))
+                elif o == 'forge':
+                    emit('forge', rng.randint(0, 2), self._kw(toy, lo=1, hi=2, avoid=toy.hidden()))
+                else:
+                    emit(o)
+                continue
+            if not regs:
+                emit('build', rng.randint(0, 2), [], {})
+                continue
+            r = rng.choice(regs)
+            if o == 'train':
+                if toy.trains:
+                    train(r)
+                elif rng.random() < 0.1:
+                    emit('train', r, 1, 2)
+            elif o == 'apply':
+                emit('apply', r, rng.choice(xs))
+            elif o == 'params':
+                emit('params', r)
+            elif o == 'setparams':
+                emit('setparams', r, self._kw(toy, lo=1, hi=2, avoid=toy.hidden()))
+            elif o == 'getstate':
+                if toy.trains and not trained():
+                    train(r)
+                src = rng.choice(trained()) if toy.trains and rng.random() < 0.9 else r
+                k = rng.randint(0, 2)
+                emit('getstate', src, k)
+                if toy.trains:
+                    probe(k)
+            elif o in ('setstate', 'preset'):
+                ks = full()
+                k = rng.choice(ks) if ks and rng.random() < 0.85 else rng.randint(0, 2)
+                if o == 'setstate' and not toy.own_state and rng.random() < 0.7:
+                    o = 'preset'  # user-written state methods: only the platform path promises precedence
+                emit(o, r, k)
+                if rng.random() < 0.5:
+                    emit('apply', r, rng.choice(xs))
+                if toy.trains and rng.random() < 0.5 and isinstance(sm.regs[r], SpecActor) and sm.regs[r].state is not None:
+                    # what does the receiver export now?
+                    k2 = rng.randint(0, 2)
+                    emit('getstate', r, k2)
+                    probe(k2)
+            elif o == 'setempty':
+                emit('setempty', r)
+            elif o == 'pickle':
+                emit('pickle', r)
+                if rng.random() < 0.5:
+                    emit('apply', r, rng.choice(xs))
+        # closing round: every live actor answers, reports, exports; every export is probed
+        for r in live():
+            emit('apply', r, xs[0])
+            emit('params', r)
+        if toy.trains:
+            for r in trained():
+                emit('getstate', r, 0)
+                emit('fapply', 0, xs[1])
+        sc.checks = live_checks(toy, sc.ops)
+        return sc
+
+    def _shrink_live(self, sc: Scenario, chk: list) -> tuple:
+        """Greedy shrinking of a failing live sequence on the REAL code: drop ops while some check of the same kind (root-cause
+        key up to the provenance suffix) still fails; the contract machine re-derives the checks for every candidate."""
+        toy = sc.toy
+        kind = chk[-1].split('-after-')[0]
+
+        def failing(ops):
+            checks = live_checks(toy, ops)
+            obs = run_real(toy, sc.module, sc.pickler, ops)
+            for c in checks:
+                if c[-1].split('-after-')[0] == kind:
+                    f = eval_check(c, obs)
+                    if f:
+                        return c, f, obs
+            return None
+
+        ops = [list(o) for o in sc.ops[:chk[1] + 1]]
+        best = failing(ops)
+        if best is None:
+            return sc.ops, chk, None, None
+        ops = ops[:best[0][1] + 1]
+        budget = 400
+        changed = True
+        while changed and budget > 0:
+            changed = False
+            i = len(ops) - 2
+            while i >= 0 and budget > 0:
+                cand = ops[:i] + ops[i + 1:]
+                budget -= 1
+                res = failing(cand)
+                if res is not None:
+                    ops, best, changed = cand[:res[0][1] + 1], res, True
+                    i = min(i, len(ops) - 1)
+                i -= 1
+        return ops, best[0], best[1], best[2]
+
     # ---- execution --------------------------------------------------------------------------------
     def _signature(self, sc: Scenario, chk: list, obs: list) -> str:
         """Root-cause key of a failed check (narrow for the definitions that sit on a known-defective path)."""
@@ -1197,7 +1840,7 @@ class C13(fw.Check):
             ntransfer = sum(1 for o in sc.ops if o[0] in ('setstate', 'preset', 'fapply'))
             nontrivial = (ntrain > 0 and ntransfer > 0) or (not sc.toy.trains and any(o[0] == 'setparams' for o in sc.ops))
             self.case((sc.toy.name, repr(sc.ops)),
-                      f'{sc.toy.name} {"structured" if sc.checks else "random"} {sc.module}/{sc.pickler}', nontrivial,
+                      f'{sc.toy.name} {"live" if sc.live else "structured" if sc.checks else "random"} {sc.module}/{sc.pickler}', nontrivial,
                       sample={'toy': sc.toy.name, 'site': sc.module, 'pickler': sc.pickler, 'ops': len(sc.ops),
                               'first_ops': [op_sexp(o) for o in sc.ops[:6]], 'first_obs': [obs_sexp(o) for o in obs[:6]]})
             for ob in obs:
@@ -1212,7 +1855,22 @@ class C13(fw.Check):
                     self.diverge(f'{sc.toy.name}: observation of op #{idx} {sc.ops[idx] if idx is not None else ""}',
                                  sc.witness(), io[1:][idx] if idx is not None else impl,
                                  (mo[1:][idx] if idx is not None else ans))
-            if oracle:
+            if oracle and sc.live:
+                # the first departure from the contract is the root; later ones are its consequences
+                first = next((c for c in sc.checks if eval_check(c, obs)), None)
+                if first is not None and first[-1] in self._live_reported:
+                    first = None  # one shrunk witness per root-cause key (shrinking re-runs the real code many times)
+                if first is not None:
+                    self._live_reported.add(first[-1])
+                    ops, chk, fail, _ = self._shrink_live(sc, first)
+                    if fail is None:  # not reproducible on a second run: report the original observation
+                        ops, chk, fail = sc.ops, first, eval_check(first, obs)
+                    small = Scenario(sc.toy, sc.module, sc.pickler)
+                    small.live, small.ops = True, ops
+                    self.violate(f'{sc.toy.name} ({sc.toy.kind}, {sc.module}/{sc.pickler}) live op sequence '
+                                 f'(shrunk from {len(sc.ops)} to {len(ops)} ops) {[op_sexp(o) for o in ops]}: {chk[-2]}: {fail}',
+                                 small.witness(chk), chk[-1])
+            elif oracle:
                 for chk in sc.checks:
                     fail = eval_check(chk, obs)
                     if fail:
@@ -1223,6 +1881,8 @@ class C13(fw.Check):
     # ---- families ----------------------------------------------------------------------------------------------
     def _family_spec(self) -> dict:
         rng = self.rng
+        if rng.random() < 0.35:
+            return self._wrapdef_spec()
         if rng.random() < 0.7:
             n = rng.randint(2, 5)
             table = []
@@ -1236,6 +1896,51 @@ class C13(fw.Check):
         names = rng.sample(sorted(SHARED), rng.randint(2, 4))
         return {'kind': 'shared', 'names': names}
 
+    def _wrapdef_spec(self) -> dict:
+        """a user class (which of apply/predict, train/fit, get_params/hp, set_params/configure, get_state+set_state it
+        defines as methods, which names exist as non-callable attributes, rarely: already a flow.Actor) and a mapping
+        (per Actor method: not given / a name that is a method / a name that is a non-callable attribute / a missing name /
+        a callable / rarely something invalid)"""
+        rng = self.rng
+        methods = [rng.choice([2, 2, 2, 6]), rng.choice([3, 3, 3, 7]), rng.choice([4, 4, 0])]
+        if rng.random() < 0.3:
+            methods.append(4 if 0 in methods else 0)
+        fit = rng.choice(['method', 'method', 'method', 'flag', 'none'])
+        flags = []
+        if fit == 'method':
+            methods.append(rng.choice([5, 5, 1]))
+        elif fit == 'flag':
+            flags.append(rng.choice([5, 1]))
+        if rng.random() < 0.15:
+            flags.append(16)
+
+        def target(k, own):
+            u = rng.random()
+            if u < 0.55:
+                cands = [m for m in own if m in methods]
+                if cands:
+                    return ['name', rng.choice(cands)]
+            if u < 0.75:
+                return 'fn'
+            if u < 0.85:
+                return ['name', rng.choice([15, 16] + flags)]
+            if u < 0.88:
+                return 'invalid'
+            return None
+
+        mapping = []
+        for k, own in ((0, (0, 4)), (1, (1, 5)), (2, (2, 6)), (3, (3, 7))):
+            t = target(k, own)
+            if t is not None:
+                mapping.append([k, t])
+        rng.shuffle(mapping)
+        spec = {'kind': 'wrapdef', 'methods': sorted(set(methods)), 'flags': sorted(set(flags)), 'actor': rng.random() < 0.04,
+                'mapping': mapping}
+        ok, tm, _ = wrapdef_resolve(spec)
+        if ok and tm in ('callable', 'method') and rng.random() < 0.3:
+            spec['methods'] = sorted(set(spec['methods']) | {8, 9})  # the origin brings its own state methods
+        return spec
+
     def _family_scenario(self, spec: typing.Optional[dict] = None) -> dict:
         """one structured or random script per member, interleaved in chunks in a random order: in particular the
         first is_stateful query (direct, or through get_state/set_state) of related classes comes in either order."""
@@ -1243,8 +1948,14 @@ class C13(fw.Check):
         spec = spec or self._family_spec()
         fam = Family(spec)
         self._forced_site = ('dyn', 'cloudpickle')
+        def script(t):
+            if not fam.accepted:
+                return self._random_scenario(t)  # a refused definition: compared with the model only
+            u = rng.random()
+            return self._structured(t) if u < 0.5 else self._live_scenario(t) if u < 0.8 else self._random_scenario(t)
+
         try:
-            scs = [(self._structured(t) if rng.random() < 0.75 else self._random_scenario(t)) for t in fam.members]
+            scs = [script(t) for t in fam.members]
         finally:
             self._forced_site = None
         # class-level queries in a random order first (for about half of the families), then chunks
@@ -1256,8 +1967,9 @@ class C13(fw.Check):
             for sc in scs:
                 sc.ops.insert(0, ['stateful'])
                 sc.checks = [self._shift(c) for c in sc.checks]
-                sc.val(0, sc.toy.trains, 'is_stateful() does not say whether the definition has a training implementation',
-                       'stateful-mismatch')
+                if fam.accepted:
+                    sc.val(0, sc.toy.trains, 'is_stateful() does not say whether the definition has a training implementation',
+                           'stateful-mismatch')
             left = [len(sc.ops) - 1 for sc in scs]
             order.extend(perm)
         while any(left):
@@ -1281,6 +1993,16 @@ class C13(fw.Check):
                 'scripts': [[op_sexp(o) for o in sc.ops] for sc in fs['scripts']], 'member': member, 'check': check}
 
     def _run_families(self, families: list, oracle: bool = True, compare: bool = True) -> None:
+        import gc
+
+        try:
+            self._run_families_(families, oracle, compare)
+        finally:
+            for fs in families:
+                fs['family'].dispose()
+            gc.collect()
+
+    def _run_families_(self, families: list, oracle: bool, compare: bool) -> None:
         lines, owners = [], []
         for fi, fs in enumerate(families):
             for m, sc in enumerate(fs['scripts']):
@@ -1290,9 +2012,12 @@ class C13(fw.Check):
         for fi, fs in enumerate(families):
             fam, scs = fs['family'], fs['scripts']
             obs = run_family(fam, [sc.ops for sc in scs], fs['order'])
-            related = fam.spec['kind'] == 'shared' or any(r[0] is not None for r in fam.spec['table'])
-            self.case((repr(fam.spec), tuple(fs['order']), tuple(repr(sc.ops) for sc in scs)),
-                      f'family {fam.spec["kind"]} of {len(scs)}', related,
+            related = fam.spec['kind'] in ('shared', 'wrapdef') or any(r[0] is not None for r in fam.spec['table'])
+            shape = f'family {fam.spec["kind"]} of {len(scs)}'
+            if fam.spec['kind'] == 'wrapdef':
+                shape = 'wrapdef ' + ('refused' if not fam.accepted else
+                                      ('own-state ' if fam.members[0].kind == 'custom' else '') + str(fam.members[0].flag))
+            self.case((repr(fam.spec), tuple(fs['order']), tuple(repr(sc.ops) for sc in scs)), shape, related,
                       sample={'family': fam.spec, 'members': [t.name for t in fam.members], 'ops': len(fs['order']),
                               'order_head': fs['order'][:12]})
             for m, sc in enumerate(scs):
@@ -1313,9 +2038,15 @@ class C13(fw.Check):
                     for chk in sc.checks:
                         fail = eval_check(chk, obs[m])
                         if fail:
+                            if sc.live and chk[-1] in self._live_reported:
+                                break
+                            if sc.live:
+                                self._live_reported.add(chk[-1])
                             self.violate(f'{sc.toy.name} ({sc.toy.kind}) in family {fam.spec}, classes used in the order '
                                          f'{self._first_use(fs["order"])}: {chk[-2]}: {fail}',
                                          self._family_witness(fs, m, chk), self._signature(sc, chk, obs[m]))
+                            if sc.live:
+                                break  # the first departure from the contract is the root; the rest are its consequences
 
     @staticmethod
     def _first_use(order: list) -> list:
@@ -1335,6 +2066,7 @@ class C13(fw.Check):
         import collections
 
         self.errors_hit = collections.Counter()
+        self._live_reported: set = set()
         scenarios = []
         # corpus: one structured scenario per definition first
         for toy in TOYS:
@@ -1346,6 +2078,12 @@ class C13(fw.Check):
             scenarios.append(self._structured(self.rng.choice(TOYS)))
         for _ in range(self.n(400, 5000)):
             scenarios.append(self._random_scenario(self.rng.choice(TOYS)))
+        # operation sequences on live instances, checked op by op against the contract machine
+        stateful_toys = [t for t in TOYS if t.trains]
+        for toy in TOYS:
+            scenarios.append(self._live_scenario(toy))
+        for _ in range(self.n(600, 9000)):
+            scenarios.append(self._live_scenario(self.rng.choice(stateful_toys if self.rng.random() < 0.8 else TOYS)))
         for i in range(0, len(scenarios), 500):
             self._run_batch(scenarios[i:i + 500])
         # related actor classes: hand-picked chains first (stateless base -> stateful subclass -> sub-subclass; stateful
@@ -1354,10 +2092,23 @@ class C13(fw.Check):
                   {'kind': 'chain', 'table': [[None, True, False], [0, True, False], [0, False, True], [None, False, False]]},
                   {'kind': 'shared', 'names': ['ShWrapA', 'ShWrapB', 'ShWrapB0', 'ShWrapBc']},
                   {'kind': 'shared', 'names': ['ShDeco1', 'ShPair1', 'ShDeco2', 'ShPair2', 'ShPair3']}]
-        families = [self._family_scenario(spec) for spec in corpus for _ in range(3)]
-        families += [self._family_scenario() for _ in range(self.n(160, 2000))]
-        for i in range(0, len(families), 100):
-            self._run_families(families[i:i + 100])
+        wd = lambda methods, mapping, flags=(), actor=False: {'kind': 'wrapdef', 'methods': list(methods), 'flags': list(flags),  # noqa: E731
+                                                              'actor': actor, 'mapping': mapping}
+        corpus += [
+            wd([0, 1, 2, 3], []),  # parameterless: every Actor method is the origin's method of the same name
+            wd([0, 2, 3, 4, 5, 1], [[0, ['name', 4]], [1, ['name', 5]]]),  # origin ALSO has apply/train: decoys, the mapping wins
+            wd([2, 3, 4, 5, 8, 9], [[0, ['name', 4]], [1, ['name', 5]]]),  # origin with its own get_state/set_state
+            wd([4, 5, 6, 7, 8, 9], [[0, 'fn'], [1, 'fn'], [2, 'fn'], [3, 'fn']]),  # all callables + own state methods
+            wd([2, 3, 4], [[0, ['name', 4]], [1, ['name', 5]]], flags=[5]),  # train -> non-callable attribute
+            wd([2, 3, 4, 5], [[0, ['name', 4]], [1, ['name', 15]]]),  # train -> missing name: accepted, stateless
+            wd([2, 3, 4, 5], [[0, ['name', 15]], [1, ['name', 5]]]),  # apply -> missing name: refused
+            wd([3, 4, 5], [[0, ['name', 4]], [1, ['name', 5]]]),  # no get_params on the origin and none mapped: refused
+            wd([2, 3, 4, 5], [[0, ['name', 4]], [1, 'invalid']]),  # invalid mapping value
+            wd([0, 2, 3, 5], [[1, ['name', 5]]], actor=True),  # already an actor
+        ]
+        todo = [spec for spec in corpus for _ in range(3)] + [None] * self.n(220, 2500)
+        for i in range(0, len(todo), 50):  # created batch by batch: the classes of a batch are disposed of after it
+            self._run_families([self._family_scenario(spec) for spec in todo[i:i + 50]])
         self.extra['error_kinds_hit'] = dict(self.errors_hit)
 
     def search(self, reason):
@@ -1367,13 +2118,14 @@ class C13(fw.Check):
             names = set(TOY)
         scenarios = [self._structured(TOY[n]) for n in sorted(names) for _ in range(40)]
         scenarios += [self._stateful_scenario(TOY[n], zero=True) for n in sorted(names) if TOY[n].trains for _ in range(4)]
+        scenarios += [self._live_scenario(TOY[n]) for n in sorted(names) for _ in range(20)]
         before = len(self.violations)
         self._run_batch(scenarios, oracle=True, compare=False)
         if any(isinstance(d.case, dict) and 'family' in d.case for d in self.divergences):
-            fams = [self._family_scenario(d.case['family']) for d in self.divergences
-                    if isinstance(d.case, dict) and 'family' in d.case][:60]
-            fams += [self._family_scenario() for _ in range(60)]
-            self._run_families(fams, oracle=True, compare=False)
+            specs = [d.case['family'] for d in self.divergences if isinstance(d.case, dict) and 'family' in d.case][:40]
+            specs += [None] * 40
+            for i in range(0, len(specs), 40):
+                self._run_families([self._family_scenario(sp) for sp in specs[i:i + 40]], oracle=True, compare=False)
         self.notes.append(f'failing-input search ({reason}): {len(scenarios)} structured scenarios on {sorted(names)}, '
                           f'{len(self.violations) - before} oracle failures')
 
